@@ -57,9 +57,11 @@ func runC08(c *sim.Ctx) *sim.Violation {
 		frame, fm = ref.Encode(a)
 		c.Count("frames.from-stub-encoder")
 	}
+	overlong := false
 	if t.Bool(1, 6) {
 		frame = overlongRL(frame, 1+t.Int(2)) // cut offsets inside a multi-byte header also for small frames
 		fm = nil
+		overlong = true
 		c.Count("probe.non-minimal-multi-byte-remaining-length")
 	}
 	mega := false
@@ -136,6 +138,18 @@ func runC08(c *sim.Ctx) *sim.Violation {
 			}
 		}
 		ks = ok
+	}
+	if overlong && !mega {
+		// A decoder may refuse a non-minimal remaining length as soon as it has read
+		// its last byte - without reading on to a failure that lies further down the
+		// stream. Only cuts INSIDE the fixed header are reached by every decoder.
+		var in []int
+		for _, k := range ks {
+			if k < h {
+				in = append(in, k)
+			}
+		}
+		ks = in
 	}
 	// thorough, small frames: every k x {EOF,E} x {error after, error with the last bytes}
 	allCombos := c.Thorough && L <= 300
